@@ -4625,7 +4625,8 @@ def pinsr(_, instr, dst, src, imm, size):
             32: 0x3,
             64: 0x1}[size]
 
-    sel = (int(imm) & mask) * size
+    # 64-bit MMX destinations have half as many lanes as XMM ones
+    sel = (int(imm) & mask & (dst.size // size - 1)) * size
     e.append(m2_expr.ExprAssign(dst[sel:sel + size], src[:size]))
 
     return e, []
@@ -4655,7 +4656,8 @@ def pextr(_, instr, dst, src, imm, size):
             32: 0x3,
             64: 0x1}[size]
 
-    sel = (int(imm) & mask) * size
+    # 64-bit MMX sources have half as many lanes as XMM ones
+    sel = (int(imm) & mask & (src.size // size - 1)) * size
     e.append(m2_expr.ExprAssign(dst, src[sel:sel + size].zeroExtend(dst.size)))
 
     return e, []
